@@ -38,7 +38,8 @@ EXPLANATION = (
     "presence of '' in includes and a root listed in both or neither is rejected with LenaValueError.  "
     "The helper SelectContext relies on, get_recursively, raises LenaKeyError -- the only class SelectContext turns into False -- on "
     "every raising path inside or after the key traversal (a missing key as well as a scalar met on the way).  "
-    "Does not decide the truth table of a concrete nested specification nor the longest-prefix partition for concrete key sets.")
+    "Does not decide the truth table of a concrete nested specification nor the longest-prefix partition for concrete key sets."    " Added after the eighth round of seeded changes and the second round of behaviour-preserving changes: Every recursion of IncludeExcludeTree.get into a subtree is made with a value found isinstance(., dict) on that path; the defaults of GroupBy are recognised by == '' and never by truth value; GroupBy.fill may use the setdefault form; a Selector subclass does not hand a predicate it requires to be callable to Selector.__init__ (type dispatch)."
+)
 RULES = {
     "C15-a": "TYPESTATE/AGREE: Selector.__init__ dispatch binds what its type test promises; list->any, tuple->all; Not negates",
     "C15-b": "GUARD: leaf invocations contained by except Exception; raise iff _raise_on_error else return False; missing key -> False",
